@@ -108,6 +108,11 @@ def check_case(ctx, case):
         C0 = ref_average([(1.0, to4(base), m.orientations[-1], m.fractions[-1])], None)
         ortho = False
     ctx.cls(f"kind={kind}")
+    # units: GPa as tabulated, Pa, TPa or compliance-like magnitudes -- percentages and the axis are scale-free and the
+    # moduli scale linearly, so every clause below must hold unchanged
+    unit = [1.0, 1.0, 1e9, 1e-3, 1e-12][int(case["seed"]) % 5]
+    C0 = C0 * unit
+    ctx.cls(f"unit={unit:g}")
     out0 = dg.elasticity_components(ctx.buf("Cstack", np.array([C0])) if case["seed"] % 2 else np.array([C0]))
     K, G = KG(C0)
     ok = abs(out0["bulk_modulus"][0] - K) <= 1e-9 * abs(K) and abs(out0["shear_modulus"][0] - G) <= 1e-9 * abs(G)
